@@ -50,7 +50,7 @@
 
 use crate::error::{QueryError, Result};
 use crate::execution::ExecutionContext;
-use crate::planner::LogicalPlan;
+use crate::planner::{Expr, LogicalPlan};
 use std::collections::{BTreeMap, BTreeSet};
 
 /// One table the initiator must gather before it can run the statement.
@@ -241,10 +241,42 @@ fn collect_scans(
         return Ok(());
     }
 
+    // Subquery plans embedded in this node's expressions (scalar / IN / EXISTS
+    // the optimizer did not turn into a join) are not `children()`, but the
+    // re-bound statement reads their tables and columns all the same.
+    let mut subplans = Vec::new();
+    for expr in node_exprs(plan) {
+        super::plan::visit_expr(expr, &mut |e| match e {
+            Expr::ScalarSubquery(p) => subplans.push(p.clone()),
+            Expr::Exists { subquery, .. } | Expr::InSubquery { subquery, .. } => {
+                subplans.push(subquery.clone())
+            }
+            _ => {}
+        });
+    }
+    for sub in &subplans {
+        collect_scans(ctx, sub, required)?;
+    }
+
     for child in plan.children() {
         collect_scans(ctx, child, required)?;
     }
     Ok(())
+}
+
+/// The expressions a plan node evaluates itself (not its children's).
+fn node_exprs(plan: &LogicalPlan) -> Vec<&Expr> {
+    match plan {
+        LogicalPlan::Filter(n) => vec![&n.predicate],
+        LogicalPlan::Project(n) => n.exprs.iter().collect(),
+        LogicalPlan::Aggregate(n) => n.group_by.iter().chain(&n.aggregates).collect(),
+        LogicalPlan::Sort(n) => n.order_by.iter().map(|s| &s.expr).collect(),
+        LogicalPlan::Join(n) => {
+            let on = n.on.iter().flat_map(|(l, r)| [l, r]);
+            on.chain(n.filter.as_ref()).collect()
+        }
+        _ => Vec::new(),
+    }
 }
 
 /// Column names an expression mentions.
@@ -253,8 +285,7 @@ fn collect_scans(
 /// subquery in one — so a walk over the value-expression variants is complete.
 /// If a variant is ever missed, the failure mode is a missing column at
 /// re-bind (`ColumnNotFound`, loud), never a wrong answer.
-fn collect_expr_columns(e: &crate::planner::Expr, out: &mut Vec<String>) {
-    use crate::planner::Expr;
+fn collect_expr_columns(e: &Expr, out: &mut Vec<String>) {
     match e {
         Expr::Column(c) => out.push(c.name.clone()),
         Expr::BinaryExpr { left, right, .. } => {
